@@ -444,6 +444,50 @@ Definition f1_class (P : program) (q : query) : bool :=
     | Some h => memN h R0 && has_dup (vars (chead c))
     end) cls.
 
+(** Known class F7q (found by the C05 builder; same mechanism as DESIGN §5 F7, but within one
+    query): the ground search space of the goal contains a coinductive atom [g], different
+    from the root atom, that lies on a cycle whose strongly connected component is not a
+    simple ring (some member has two distinct successors inside the component).  The SLG
+    solver then may answer "no solution" for a goal that holds coinductively. *)
+Fixpoint dedup (l : list ty) : list ty :=
+  match l with
+  | [] => []
+  | a :: r => if memT a r then dedup r else a :: dedup r
+  end.
+
+Definition succs (cls : list clause) (x : ty) : list ty := dedup (concat (bodies cls x)).
+
+Definition reach_plus (fuel : nat) (cls : list clause) (x : ty) : list ty :=
+  match reach (bodies cls) fuel (succs cls x) [] with Some R => R | None => [] end.
+
+Definition f7q_atom (fuel : nat) (cls : list clause) (co : list N) (a : ty) : bool :=
+  match reach (bodies cls) fuel [a] [] with
+  | None => false
+  | Some R =>
+      existsb (fun g =>
+        negb (ty_eqb g a) && isco co g &&
+        let Rg := reach_plus fuel cls g in
+        memT g Rg &&
+        let scc := filter (fun y => memT g (reach_plus fuel cls y)) Rg in
+        existsb (fun m => Nat.leb 2 (length (filter (fun s => memT s scc) (succs cls m)))) scc) R
+  end.
+
+(** [goal_any f]: does [f] hold for some (ground) atom the evaluation of the goal looks at?
+    Mirrors the traversal of [eval_goalx]. *)
+Fixpoint goal_any (f : list clause -> ty -> bool) (P : program) (env : list clause) (rho : list ty) (g : goal) : bool :=
+  match g with
+  | GAtom a => let a' := subst (listth rho) a in groundb a' && f (allc P env) a'
+  | GAnd g1 g2 => goal_any f P env rho g1 || goal_any f P env rho g2
+  | GForall g' => goal_any f P env (TPh (fresh P env rho g') :: rho) g'
+  | GExists g' => false
+  | GIf hs g' => goal_any f P (map (inst_hyp rho) hs ++ env) rho g'
+  | GNot g' => goal_any f P env rho g'
+  | _ => false
+  end.
+
+Definition f7q_class (fuel : nat) (P : program) (g : goal) : bool :=
+  goal_any (fun cls a => f7q_atom fuel cls (pcoind P) a) P [] [] g.
+
 (** ** Witnesses (computation) *)
 
 Module ContractExamples.
@@ -506,4 +550,25 @@ Module ContractExamples.
     - split; [intros tau _; reflexivity|intros th ->; exists []; reflexivity].
     - intros th ->. exists [I32]. reflexivity.
   Qed.
+  (* F7q: #[coinductive] trait C; S0 :- S1; S1 :- S3, S2; S2 :- S1, S3; S3 :- S2 ; goal S0: C *)
+  Definition K (n : N) := tapp n [].
+  Definition C t := tapp 1000 [t].
+  Definition P7q := mkProg [mkClause (C (K 0)) [C (K 1)]; mkClause (C (K 1)) [C (K 3); C (K 2)];
+                            mkClause (C (K 2)) [C (K 1); C (K 3)]; mkClause (C (K 3)) [C (K 2)]] [1000%N].
+
+  Example rr7q : rr (allc P7q []).
+  Proof. apply rr_allb_spec. reflexivity. Qed.
+
+  (** SLG answers [NoSolution] for [S0: C] on the unchanged tree; the goal holds. *)
+  Theorem f7q_refuted :
+    f7q_class 50 P7q (GAtom (C (K 0))) = true /\ ~ contract P7q [] (closed_query (GAtom (C (K 0)))) ANone.
+  Proof.
+    split; [reflexivity|].
+    apply (check_answer_alarm_sound 50 P7q [] (closed_query (GAtom (C (K 0)))) ANone [[]] 3 rr7q). reflexivity.
+  Qed.
+
+  (* simple rings and stars are outside the class *)
+  Example f7q_ring_outside :
+    f7q_class 50 (mkProg [mkClause (C (K 0)) [C (K 1)]; mkClause (C (K 1)) [C (K 2)]; mkClause (C (K 2)) [C (K 1)]] [1000%N]) (GAtom (C (K 0))) = false.
+  Proof. reflexivity. Qed.
 End ContractExamples.
